@@ -58,6 +58,7 @@ type recSink struct {
 func (s *recSink) Receive(c *storage.FlowCollection) { s.got = append(s.got, c) }
 
 type state struct {
+	wraps    bool // configuration in which the emission walk lands exactly on the head index (see walkHitsHead)
 	r        *storage.BucketRing
 	interval int64
 	flows    []*accepted
@@ -144,7 +145,14 @@ func (s *state) checkSink(h sink, op string, cs []*storage.FlowCollection) {
 		// at most once: no bucket start time is covered by two received collections
 		for bs := c.StartTime; bs < c.EndTime; bs += s.interval {
 			if s.covered[bs] {
-				h.OracleFail("window-emitted-twice", "a bucket was included in two collections handed to the sink",
+				sig := "window-emitted-twice"
+				if s.wraps {
+					// known finding: the backward walk of EmitFlowCollections only stops when the head index is
+					// STRICTLY inside the next window; in this configuration it lands exactly on the head index,
+					// keeps walking around the ring and builds windows that overlap the ones already built
+					sig = "window-emitted-twice:walk-wraps-past-head"
+				}
+				h.OracleFail(sig, "a bucket was included in two collections handed to the sink",
 					map[string]any{"op": op, "bucket_start": bs, "collection": fmt.Sprintf("%d-%d", c.StartTime, c.EndTime)})
 			}
 			s.covered[bs] = true
@@ -188,6 +196,7 @@ func exec(h sink, s *state, op string) string {
 		nowFunc := func() time.Time { return time.Unix(now, 0) }
 		s.r = storage.NewBucketRing(n, iv, now, storage.WithNowFunc(nowFunc), storage.WithPushAfter(pa), storage.WithBucketsToAggregate(ag))
 		s.interval = int64(iv)
+		s.wraps = walkHitsHead(n, pa, ag)
 		s.flows = nil
 		s.covered = map[int64]bool{}
 		return "ok | " + dump(s.r)
@@ -364,6 +373,49 @@ func exec(h sink, s *state, op string) string {
 	panic("unknown op " + op)
 }
 
+// emitTerminates simulates the index walk of EmitFlowCollections (head = 0, no pushed bucket).
+func emitTerminates(n, pa, ag int) bool {
+	sub := func(i, k int) int { return ((i-k)%n + n) % n }
+	between := func(s, e, t int) bool {
+		if s == e {
+			return false
+		}
+		if s < e {
+			return t > s && t < e
+		}
+		return t > s || t < e
+	}
+	e := sub(sub(0, 1), pa)
+	s := sub(e, ag)
+	for i := 0; i < 4*n+4; i++ {
+		e = s
+		s = sub(s, ag)
+		if between(s, e, 0) {
+			return true
+		}
+	}
+	return false
+}
+
+// walkHitsHead: does the index walk of EmitFlowCollections (head = 0, no pushed bucket) reach a window
+// boundary equal to the head index before a window strictly contains the head?
+func walkHitsHead(n, pa, ag int) bool {
+	sub := func(i, k int) int { return ((i-k)%n + n) % n }
+	e := sub(sub(0, 1), pa)
+	s := sub(e, ag)
+	for i := 0; i < 4*n+4; i++ {
+		e = s
+		s = sub(s, ag)
+		if s != e && ((s < e && 0 > s && 0 < e) || (s > e && (0 > s || 0 < e))) {
+			return false
+		}
+		if s == 0 || e == 0 {
+			return true
+		}
+	}
+	return true
+}
+
 func genCase(h *rt.H) []string {
 	n := 4 + h.Intn(7)
 	iv := rt.Pick(h, []int{1, 2, 5, 15})
@@ -376,6 +428,16 @@ func genCase(h *rt.H) []string {
 		} else {
 			pa--
 		}
+	}
+	if !emitTerminates(n, pa, ag) {
+		// EmitFlowCollections walks backwards in steps of bucketsToAggregate until it meets a pushed
+		// bucket or a window that strictly contains the head index. For this (n, pushAfter,
+		// bucketsToAggregate) the walk returns to its starting window without ever strictly containing
+		// the head, so on a ring without pushed buckets the real loop never terminates (observed: the
+		// harness hung with unbounded memory growth). Such configurations cannot be driven; they are
+		// counted and replaced.
+		h.Count("config:emit-walk-never-crosses-head(skipped)")
+		return genCase(h)
 	}
 	sh := &state{}
 	var ops []string
